@@ -37,6 +37,7 @@ fn main() {
         _ => "quick".to_string(),
     };
     let (mut run, mut pb, mut timeouts, mut merge, mut list) = (None::<usize>, 2usize, 0usize, None::<String>, false);
+    let mut replay: Option<String> = None;
     let mut i = 2;
     while i < args.len() {
         match args[i].as_str() {
@@ -61,6 +62,10 @@ fn main() {
                 i += 1;
             }
             "--list" => list = true,
+            "--replay" => {
+                replay = Some(args[i + 1].clone());
+                i += 1;
+            }
             o => {
                 eprintln!("unknown argument {o}");
                 std::process::exit(2);
@@ -69,6 +74,29 @@ fn main() {
         i += 1;
     }
     clock::assert_owned();
+    if let Some(path) = replay {
+        // re-explore the one thread program recorded in a violation file
+        let v: Value = serde_json::from_str(&std::fs::read_to_string(&path).expect("replay file")).expect("replay json");
+        let hist: Vec<String> = v["history"].as_array().map(|a| a.iter().map(|x| x.as_str().unwrap_or("").to_string()).collect()).unwrap_or_default();
+        let cfg = v["config"].as_str().unwrap_or("");
+        let k: usize = cfg.split("timeouts that fire: ").nth(1).and_then(|r| r.split(',').next()).and_then(|x| x.trim().parse().ok()).unwrap_or(0);
+        let pbound: usize = cfg.split("preemption bound ").nth(1).and_then(|x| x.trim().parse().ok()).unwrap_or(2);
+        for fam in ["C08", "L01", "L02", "L03", "L07"] {
+            for t in ["quick", "thorough"] {
+                let progs = programs_for(fam, t);
+                if let Some(p) = progs.iter().find(|p| p.history() == hist) {
+                    println!("program: {}\npreemption bound {pbound}, timeouts that fire {k}", p.describe());
+                    if !child(p, pbound, k, 2_000_000) {
+                        println!("VIOLATION property={} replay={}", family_property(fam), path);
+                        std::process::exit(1);
+                    }
+                    return;
+                }
+            }
+        }
+        eprintln!("no thread program matches the recorded one");
+        std::process::exit(2);
+    }
     let progs = programs_for(&family, &tier);
     if list {
         for (i, p) in progs.iter().enumerate() {
@@ -77,13 +105,13 @@ fn main() {
         return;
     }
     if let Some(idx) = run {
-        child(&progs[idx], pb, timeouts, if tier == "thorough" { 1_500_000 } else { 250_000 });
+        let _ = child(&progs[idx], pb, timeouts, if tier == "thorough" { 1_500_000 } else { 250_000 });
         return;
     }
     std::process::exit(parent(&family, &tier, &progs, merge));
 }
 
-fn child(p: &Program, pb: usize, timeouts: usize, cap_secs: u64) {
+fn child(p: &Program, pb: usize, timeouts: usize, cap_secs: u64) -> bool {
     util::silence_panics();
     // loom failures can end in a double panic (abort): leave the first message on stderr for the parent
     let prev = std::panic::take_hook();
@@ -131,6 +159,7 @@ fn child(p: &Program, pb: usize, timeouts: usize, cap_secs: u64) {
         }),
     };
     println!("RESULT {}", out);
+    out["ok"].as_bool().unwrap_or(false)
 }
 
 fn failure_class(msg: &str) -> String {
